@@ -50,11 +50,20 @@ GScanDel(p, d, n, k) ==
      /\ Log([op |-> "scandel", prefix |-> p, delim |-> d, count |-> n, items |-> pg.page, next |-> pg.next, key |-> k,
              rest |-> ScanFrom(ListOp(after, p, d), pg.next, n)])
 
+\* a delete of a name that holds no object but is a "directory" above stored keys: nothing is stored there, so
+\* nothing changes (whatever the call answers); the complete listing afterwards is the listing before
+GDirKeys == { <<"a">>, <<"a", "/", "a", "b">>, <<"a", "b">>, <<"a", "-", "b">> }
+GDeleteDir(k) ==
+  /\ k \notin DOMAIN store
+  /\ UNCHANGED store
+  /\ Log([op |-> "deldir", key |-> k, items |-> ListOp(store, <<>>, FALSE)])
+
 \* RandomElement keeps the branching of observation steps low so that random
 \* walks mix mutations and observations evenly.
 R(S) == RandomElement(S)
 GStep == \/ \E k \in Keys, e \in BOOLEAN : GPut(k, R(Vals), e)
          \/ \E k \in Keys : GDelete(k)
+         \/ \E k \in {R(GDirKeys)} : GDeleteDir(k)
          \/ \E i \in 1..2 : GGet(R(Keys))
          \/ GHas(R(Keys))
          \/ \E i \in 1..10 : GScan(R(LPrefixes), R(BOOLEAN), R(Counts))
